@@ -671,6 +671,11 @@ func (ul *UploadList) Info() storage.UploadInfo {
 
 // Err returns the error state of the query.
 func (ul *UploadList) Err() error {
+	if ul.err == io.EOF {
+		// The query can never match anything; that is an empty
+		// listing, not a failure (see Query.Err).
+		return nil
+	}
 	return ul.err
 }
 
@@ -679,5 +684,5 @@ func (ul *UploadList) Close() error {
 	if ul.rows != nil {
 		return ul.rows.Close()
 	}
-	return ul.err
+	return ul.Err()
 }
